@@ -302,6 +302,10 @@ func runC12(r *core.Run) {
 				asStrings1(sequtil.CanonicalSubsequences(c.A.B(), c.K), str), asStrings1(sequtil.CanonicalSubsequences(c.B.B(), c.K), str))
 		})
 
+	core.Clause(r, "dst-shares-memory-with-src", core.Opts{Rule: dstAliasRule},
+		genDstAlias([]string{"", "A", "n", "AC", "AACTTGGGn", "acgtnNACGTTTgacN", "ACXG", "AC\x00"}),
+		checkDstAlias("ReverseComplement", sequtil.ReverseComplement, ref.RevComp))
+
 	core.Clause(r, "dst-contents", core.Opts{Rule: dstRule},
 		genDstCases([]string{"", "A", "n", "AACTTGGGn", "acgtnNACGTTTgacN", "ACXG", "\x00", "AC\x00", "ACG\xff"}),
 		checkDstContract("ReverseComplement", sequtil.ReverseComplement, ref.RevComp))
